@@ -602,6 +602,8 @@ class Fn:
         f = e.func
         if e.keywords:
             self.err(e, "keyword arguments are not in the subset")
+        if len(e.args) == 1 and isinstance(e.args[0], ast.Starred):
+            e = self.inline_starred(e, env)
         name = f.id if isinstance(f, ast.Name) else None
         if name in ("len", "int", "pow", "bytes", "bytearray", "sum", "reduce", "Decimal", "isinstance", "range", "tuple", "list"):
             if name in self.locals or name in env or (name not in ("reduce", "Decimal") and self.mod.binds(name)):
@@ -868,6 +870,44 @@ class Fn:
                     name, ", ".join(fl for fl, _ in fields)))
                 return V("(%s)" % ", ".join(v.s for v in vals), "rec:" + name + ":" + ",".join(fl for fl, _ in fields))
         self.err(e, "call of %s is not in the subset" % ast.unparse(f))
+
+    def inline_starred(self, e, env):
+        """`g(*h(a, …))` where `h` is a function of this module / class whose body is `return (e1, …, en)`: the call
+        `g(e1[a/x], …)`.  Only names and constants may be passed to `h` (they are substituted, so evaluated once per use)."""
+        inner = e.args[0].value
+        if not isinstance(inner, ast.Call) or inner.keywords:
+            self.err(e, "starred argument that is not a call is not in the subset")
+        hf = inner.func
+        hname = hf.id if isinstance(hf, ast.Name) else (
+            hf.value.id + "." + hf.attr if isinstance(hf, ast.Attribute) and isinstance(hf.value, ast.Name) else None)
+        if hname is None or hname.split(".")[0] in env or hname.split(".")[0] in self.locals:
+            self.err(e, "starred call of %s is not in the subset" % ast.unparse(hf))
+        node = self.mod.find(hname)
+        if not isinstance(node, ast.FunctionDef):
+            self.err(e, "%s is not a function" % hname)
+        decos = [d.id if isinstance(d, ast.Name) else ast.unparse(d) for d in node.decorator_list]
+        if any(d != "staticmethod" for d in decos) or ("." in hname and decos != ["staticmethod"]):
+            self.err(e, "starred call of %s: only plain functions / static methods are inlined" % hname)
+        body = [st for st in node.body if not (isinstance(st, ast.Expr) and isinstance(st.value, ast.Constant))]
+        a = node.args
+        if len(body) != 1 or not isinstance(body[0], ast.Return) or not isinstance(body[0].value, ast.Tuple) \
+           or a.vararg or a.kwarg or a.kwonlyargs or a.posonlyargs or a.defaults:
+            self.err(e, "starred call of %s: its body must be a single `return (e1, …)`" % hname)
+        params = [x.arg for x in a.args]
+        if len(params) != len(inner.args) or not all(isinstance(x, (ast.Name, ast.Constant)) for x in inner.args):
+            self.err(e, "starred call of %s: only names / constants may be passed" % hname)
+        sub = dict(zip(params, inner.args))
+        bound = {n.id for n in ast.walk(body[0].value) if isinstance(n, ast.Name)} - set(params)
+        clash = [n for n in bound if n in env or n in self.locals]
+        if clash:
+            self.err(e, "starred call of %s: its free name %s is a local here" % (hname, clash[0]))
+        class Sub(ast.NodeTransformer):
+            def visit_Name(self_, n):
+                return ast.copy_location(__import__("copy").deepcopy(sub[n.id]), n) if n.id in sub else n
+        elts = [Sub().visit(__import__("copy").deepcopy(x)) for x in body[0].value.elts]
+        self.notes.append("%s(*%s(…)): the tuple `%s` returned by %s is passed element by element" % (
+            ast.unparse(e.func), hname, ast.unparse(body[0].value), hname))
+        return ast.copy_location(ast.Call(func=e.func, args=elts, keywords=[]), e)
 
     @staticmethod
     def is_bin_slice(e):
